@@ -412,7 +412,9 @@ fn trav_rows(rows: &[Vec<(usize, f64)>]) -> Vec<Vec<(usize, f64)>> {
 }
 pub fn p_q(x: f64) -> String {
     // floats the model computes exactly as rationals: printed in Rust's shortest round-trip form
-    if x.is_infinite() || x.is_nan() {
+    if x.is_nan() {
+        "nan".to_string()
+    } else if x.is_infinite() {
         "inf".to_string()
     } else {
         format!("{:?}", x)
